@@ -1265,6 +1265,8 @@ def report(chk, diffs, fails):
         rep = {"kind": "property-fails-on-implementation", "part": "guards", "why": why, "case_kind": c.get("kind"), "tag": c.get("tag"), "input": p}
         if p and os.path.exists(p):
             rep["input_hex_prefix"] = open(p, "rb").read()[:300].hex()
+            if os.path.getsize(p) <= 8000:
+                rep["input_hex"] = open(p, "rb").read().hex()          # small inputs travel with the replay (the work directory is wiped by the next run)
         rep["failing_cases_of_this_kind"] = sum(1 for f in fails if f[0].get("kind") == c.get("kind"))     # at most four of them are reported
         if detail:
             rep["argv"] = ["qpdf"] + list(detail[0]); rep["exit"] = detail[1]; rep["stderr_tail"] = detail[2]
